@@ -4,21 +4,11 @@
   theorem for sequences and instructions at fuel f.
 -/
 import W2c2Verif.Lemmas.SimBlock
+import W2c2Verif.Lemmas.SimSeqStep
 set_option linter.unusedSimpArgs false
 set_option linter.unusedVariables false
 namespace W2c2Verif.Sim
 open W2c2Verif Model Gen Spec
-
-theorem St.top_spec {s : St} {k : Nat} {sl : Slot} (h : s.top k = some sl) :
-    k < s.stack.length ∧ sl.idx = s.stack.length - 1 - k ∧ s.stack[s.stack.length - 1 - k]? = some sl.ty := by
-  unfold St.top at h
-  split at h
-  · rename_i hk
-    have hi : s.stack.length - 1 - k < s.stack.length := by omega
-    simp only [List.getElem?_eq_getElem hi, Option.map_some, Option.some.injEq] at h
-    subst h
-    exact ⟨hk, rfl, by simp [List.getElem?_eq_getElem hi]⟩
-  · cases h
 
 theorem Rel.top {st : St} {stk : List Val} {σ : MSt} {k : Nat} {sl : Slot} (hr : Rel st.stack stk σ) (h : st.top k = some sl) :
     k < stk.length ∧ sl.idx = stk.length - 1 - k ∧ stk[stk.length - 1 - k]? = some (σ.get sl) := by
@@ -50,6 +40,7 @@ theorem LocTyped.set {ctx : Ctx} {loc : List Val} (h : LocTyped ctx loc) (k : Na
 theorem simres_pop_push {ctx : Ctx} {st st' : St} {stk loc : List Val} {σ : MSt} (hw : WF st) (hr : Rel st.stack stk σ)
     (hl : σ.locals = loc) (hlt : LocTyped ctx loc) (n : Nat) (hn : st.base + n ≤ st.stack.length)
     (rt : VT) (v : Val) (hv : vtOf v = rt)
+    (hwf' : WF st')
     (hlab : st'.labels = st.labels) (hnext : st'.next = st.next) (hstack : st'.stack = st.stack.take (st.stack.length - n) ++ [rt])
     {m : MRes} (hm : m = .normal (σ.set ⟨rt, st.stack.length - n⟩ v)) :
     SimRes ctx st stk σ st' false (.normal (stk.take (stk.length - n) ++ [v]) loc) m := by
@@ -57,7 +48,7 @@ theorem simres_pop_push {ctx : Ctx} {st st' : St} {stk loc : List Val} {σ : MSt
   have hpush := (hr.take (st.stack.length - n)).push rt v hv
   have hl3 : (List.take (st.stack.length - n) st.stack).length = st.stack.length - n := by simp
   rw [hl3] at hpush
-  refine simres_normal_intro rfl (hw.of_same hlab (Nat.le_of_eq hnext.symm) (by rw [hstack]; simp; omega)) hlab (Nat.le_of_eq hnext.symm) hlt
+  refine simres_normal_intro rfl hwf' hlab (Nat.le_of_eq hnext.symm) hlt
     (σ.set ⟨rt, st.stack.length - n⟩ v) hm ?_ (by simp [hl]) (SlotsBelow.set _ _ _ (by simp; omega)) ?_
   · rw [hstack]; simpa [hlen] using hpush
   · rw [List.take_append_of_le_length (by simp; omega), List.take_take]
@@ -69,7 +60,7 @@ theorem num_binary_case {ns : NumSem} {ctx : Ctx} {f : Nat} {st st' : St} {stk l
     (h0 : st.top 0 = some s0) (h1 : st.top 1 = some s1) (hge : st.base + 2 ≤ st.stack.length) (rt : VT)
     (harity : ns.arity opcode = 2)
     (hdst : numSlots opcode k s1.ty s1.idx s0.ty s0.idx = (⟨rt, s1.idx⟩, [⟨s1.ty, s1.idx⟩, ⟨s0.ty, s0.idx⟩]))
-    (hres : numResTy opcode k s1.ty = rt)
+    (hres : numResTy opcode k s1.ty = rt) (hwf' : WF st')
     (hlab : st'.labels = st.labels) (hnext : st'.next = st.next) (hstack : st'.stack = st.stack.take (st.stack.length - 2) ++ [rt]) :
     SimRes ctx st stk σ st' false (erunInstr ns (f + 1) (.numeric opcode) stk loc)
       (execOut ns (f + 1) [MStmtC.num opcode k s1.ty s1.idx s0.ty s0.idx] σ) := by
@@ -93,7 +84,7 @@ theorem num_binary_case {ns : NumSem} {ctx : Ctx} {f : Nat} {st st' : St} {stk l
   | val v =>
     have hv := hns.typed opcode _ _ v hk hsem (σ.get s1) rfl
     rw [vtOf_get, hres] at hv
-    refine simres_pop_push hw hr hl hlt 2 hge rt v hv hlab hnext hstack ?_
+    refine simres_pop_push hw hr hl hlt 2 hge rt v hv hwf' hlab hnext hstack ?_
     show MRes.normal _ = _
     rw [b2, hlen]
   | trap t => rfl
@@ -136,6 +127,13 @@ theorem gotoCopy_sem {s s' : St} {lab : Label} {cp : Option (Slot × Slot)} {stk
           simp only [doCopy]
           have : (⟨rt, lab.height⟩ : Slot) = src := by cases src; simp_all
           rw [this]
+
+theorem endBlock_declLen_mono (s s' : St) (h h' : Nat) (bt : Option VT) (ls ls' : List Label) (hd : s.declLen ≤ s'.declLen) (hh : h = h' := by rfl) :
+    (s.endBlock h bt ls).declLen ≤ (s'.endBlock h' bt ls').declLen := by
+  subst hh
+  cases bt with
+  | none => exact hd
+  | some t => show max s.declLen (h + 1) ≤ max s'.declLen (h + 1); omega
 
 theorem erun_block (ns : NumSem) (f : Nat) (bt : Option VT) (body : List EInstr) (stk loc : List Val) :
     erunInstr ns (f + 1) (.block bt body) stk loc = blockRes stk.length bt (erunSeq ns f body stk loc) := by
@@ -185,11 +183,17 @@ theorem exec_ite (ns : NumSem) (f : Nat) (c : Slot) (thn : List MStmtC) (els : O
 /-- `SimRes` depends on the final translator state only through its stack, labels and label counter -/
 theorem simres_out_congr {ctx : Ctx} {st : St} {stk : List Val} {σ : MSt} {stOut stOut' : St} {dead : Bool} {r : ERes} {m : MRes}
     (h : SimRes ctx st stk σ stOut dead r m) (hs : stOut'.stack = stOut.stack) (hlab : stOut'.labels = stOut.labels)
-    (hn : stOut.next ≤ stOut'.next) : SimRes ctx st stk σ stOut' dead r m := by
+    (hn : stOut.next ≤ stOut'.next) (hd : stOut.declLen ≤ stOut'.declLen) : SimRes ctx st stk σ stOut' dead r m := by
   cases r with
   | normal stk' loc' =>
     obtain ⟨h1, h2, h3, h4, h5, σ', h6, h7, h8, h9, h10⟩ := h
-    exact ⟨h1, h2.of_same hlab hn (by rw [hs]; exact h2.base_le_height), hlab.trans h3, Nat.le_trans h4 hn, h5, σ', h6, hs ▸ h7, h8, h9, h10⟩
+    exact ⟨h1, h2.of_same hlab hn (by rw [hs]; exact h2.base_le_height) (by rw [hs]; exact Nat.le_trans h2.decl hd), hlab.trans h3, Nat.le_trans h4 hn, h5, σ', h6, hs ▸ h7, h8, h9, h10⟩
+  | branch l a b =>
+    obtain ⟨h0, lab, σ', h1, h2, h3, h4⟩ := h
+    exact ⟨h0, lab, σ', h1, h2, h3, fun ht => Nat.le_trans (h4 ht) hd⟩
+  | ret a b =>
+    obtain ⟨h0, lab, σ', h1, h2, h3, h4⟩ := h
+    exact ⟨h0, lab, σ', h1, h2, h3, fun ht => Nat.le_trans (h4 ht) hd⟩
   | _ => exact h
 
 theorem erun_loop (ns : NumSem) (f : Nat) (bt : Option VT) (body : List EInstr) (stk loc : List Val) :
@@ -282,6 +286,8 @@ macro "stuck_case" : tactic => `(tactic| (
 theorem instr_step (ns : NumSem) (hns : NumOK ns) (ctx : Ctx) (f : Nat) (hS : SeqStmt ns ctx f) (hI : InstrStmt ns ctx f) :
     InstrStmt ns ctx (f + 1) := by
   intro i st st' out dead stk loc σ hc hw hr hl hlt
+  have hstat' := instr_static ctx i st st' out dead hc hw
+  have hwf' := hstat'.wf
   cases i with
   | nop =>
     simp [compileInstr] at hc
@@ -302,7 +308,7 @@ theorem instr_step (ns : NumSem) (hns : NumOK ns) (ctx : Ctx) (f : Nat) (hS : Se
     refine ⟨by simp, ?_⟩
     rw [erunInstr]
     have hb := hw.base_le_height
-    refine simres_normal_intro rfl (hw.of_same rfl (Nat.le_refl _) (by simp; omega)) rfl (Nat.le_refl _) hlt
+    refine simres_normal_intro rfl hwf' rfl (Nat.le_refl _) hlt
       (σ.set ⟨t, st.stack.length⟩ (mkV t bits)) (by simp [execOut, execStmt]) ?_ (by simp [hl]) (SlotsBelow.set _ _ _ hb) ?_
     · simpa using hr.push t (mkV t bits) (vtOf_mkV t bits)
     · rw [List.take_append_of_le_length (by rw [hr.length]; exact hb)]
@@ -318,7 +324,7 @@ theorem instr_step (ns : NumSem) (hns : NumOK ns) (ctx : Ctx) (f : Nat) (hS : Se
       have hlen := hr.length
       have hne : ¬ stk.length = 0 := by simp [St.height] at hge; omega
       simp only [hne, if_false]
-      refine simres_normal_intro rfl (hw.of_same rfl (Nat.le_refl _) (by simp [St.height] at hge ⊢; omega)) rfl (Nat.le_refl _) hlt
+      refine simres_normal_intro rfl hwf' rfl (Nat.le_refl _) hlt
         σ rfl ?_ hl (SlotsBelow.refl _ _) ?_
       · have := hr.take (st.stack.length - 1)
         simpa [List.dropLast_eq_take, hlen] using this
@@ -342,7 +348,7 @@ theorem instr_step (ns : NumSem) (hns : NumOK ns) (ctx : Ctx) (f : Nat) (hS : Se
       have hty : vtOf loc[k] = t := by rw [hlt.2 k hkl' hkl, hkt]
       simp only [hv]
       have hb := hw.base_le_height
-      refine simres_normal_intro rfl (hw.of_same rfl (Nat.le_refl _) (by simp; omega)) rfl (Nat.le_refl _) hlt
+      refine simres_normal_intro rfl hwf' rfl (Nat.le_refl _) hlt
         (σ.set ⟨t, st.stack.length⟩ loc[k]) (by simp [execOut, execStmt, hl, hv]) ?_ (by simp [hl]) (SlotsBelow.set _ _ _ hb) ?_
       · simpa using hr.push t loc[k] hty
       · rw [List.take_append_of_le_length (by rw [hr.length]; exact hb)]
@@ -370,7 +376,7 @@ theorem instr_step (ns : NumSem) (hns : NumOK ns) (ctx : Ctx) (f : Nat) (hS : Se
           have hkl : k < loc.length := by rw [hlt.1]; exact (List.getElem?_eq_some_iff.mp hk).1
           simp only [hlast, hkl, if_true]
           have hlen := hr.length
-          refine simres_normal_intro rfl (hw.of_same rfl (Nat.le_refl _) (by simp; omega))
+          refine simres_normal_intro rfl hwf'
             rfl (Nat.le_refl _) (hlt.set k _ t hk (by rw [vtOf_get]; exact hty))
             { σ with locals := σ.locals.set k (σ.get s0) } (by simp [execOut, execStmt, hl, hkl, hs0]) ?_ (by simp [hl]) (SlotsBelow.locals _ _) ?_
           · have := hr.take (st.stack.length - 1)
@@ -399,7 +405,7 @@ theorem instr_step (ns : NumSem) (hns : NumOK ns) (ctx : Ctx) (f : Nat) (hS : Se
           have hlast : stk.getLast? = some (σ.get s0) := by rw [List.getLast?_eq_getElem?]; simpa using ht3
           have hkl : k < loc.length := by rw [hlt.1]; exact (List.getElem?_eq_some_iff.mp hk).1
           simp only [hlast, hkl, if_true]
-          refine simres_normal_intro rfl (hw.of_same rfl (Nat.le_refl _) (by simp; exact hw.base_le_height))
+          refine simres_normal_intro rfl hwf'
             rfl (Nat.le_refl _) (hlt.set k _ t hk (by rw [vtOf_get]; exact hty))
             { σ with locals := σ.locals.set k (σ.get s0) } (by simp [execOut, execStmt, hl, hkl, hs0]) ?_ (by simp [hl]) (SlotsBelow.locals _ _) rfl
           · simpa [Rel, MSt.get] using hr
@@ -446,7 +452,7 @@ theorem instr_step (ns : NumSem) (hns : NumOK ns) (ctx : Ctx) (f : Nat) (hS : Se
           have hpush := (hr.take (st.stack.length - 3)).push s1.ty _ hv
           have hl3 : (List.take (st.stack.length - 3) st.stack).length = s2.idx := by simp; omega
           rw [hl3] at hpush
-          refine simres_normal_intro rfl (hw.of_same rfl (Nat.le_refl _) (by simp; omega)) rfl (Nat.le_refl _) hlt
+          refine simres_normal_intro rfl hwf' rfl (Nat.le_refl _) hlt
             (σ.set ⟨s1.ty, s2.idx⟩ (if isTrue (σ.get s0) then σ.get s2 else σ.get s1)) (by simp [execOut, execStmt]) ?_ (by simp [hl])
             (SlotsBelow.set _ _ _ (by simp; omega)) ?_
           · simpa [hlen] using hpush
@@ -487,7 +493,7 @@ theorem instr_step (ns : NumSem) (hns : NumOK ns) (ctx : Ctx) (f : Nat) (hS : Se
           | val v =>
             have hv := hns.typed opcode _ _ v hk hsem (σ.get s0) rfl
             simp only [numResTy, numSlots] at hv
-            refine simres_pop_push hw hr hl hlt 1 hge' rt v hv ?_ ?_ ?_ ?_
+            refine simres_pop_push hw hr hl hlt 1 hge' rt v hv hwf' ?_ ?_ ?_ ?_
             · rfl
             · rfl
             · rfl
@@ -510,7 +516,7 @@ theorem instr_step (ns : NumSem) (hns : NumOK ns) (ctx : Ctx) (f : Nat) (hS : Se
             refine ⟨by simp, ?_⟩
             rw [← erunInstr]
             exact num_binary_case hns hk hw hr hl hlt h0 h1 (by simp [St.height] at hge; omega) rt (by simpa [numSlots] using harity)
-              rfl rfl rfl rfl rfl
+              rfl rfl hwf' rfl rfl rfl
       | prefixBinary rt name =>
         simp only [] at hc
         cases h1 : st.top 1 with
@@ -525,7 +531,7 @@ theorem instr_step (ns : NumSem) (hns : NumOK ns) (ctx : Ctx) (f : Nat) (hS : Se
             refine ⟨by simp, ?_⟩
             rw [← erunInstr]
             exact num_binary_case hns hk hw hr hl hlt h0 h1 (by simp [St.height] at hge; omega) rt (by simpa [numSlots] using harity)
-              rfl rfl rfl rfl rfl
+              rfl rfl hwf' rfl rfl rfl
       | signedInfix op =>
         simp only [] at hc
         cases h1 : st.top 1 with
@@ -543,7 +549,7 @@ theorem instr_step (ns : NumSem) (hns : NumOK ns) (ctx : Ctx) (f : Nat) (hS : Se
               refine ⟨by simp, ?_⟩
               rw [← erunInstr]
               exact num_binary_case hns hk hw hr hl hlt h0 h1 (by simp [St.height] at hge; omega) rt (by simpa [numSlots] using harity)
-                (by simp [numSlots, hrt]) (by simp [numResTy, numSlots, hrt]) rfl rfl rfl
+                (by simp [numSlots, hrt]) (by simp [numResTy, numSlots, hrt]) hwf' rfl rfl rfl
       | shl | shrS | shrU =>
         simp only [] at hc
         cases h1 : st.top 1 with
@@ -560,7 +566,7 @@ theorem instr_step (ns : NumSem) (hns : NumOK ns) (ctx : Ctx) (f : Nat) (hS : Se
             have hge' : st.base + 2 ≤ st.stack.length := by simp [St.height] at hge; omega
             obtain ⟨t1, t2, t3⟩ := St.top_spec h1
             refine num_binary_case hns hk hw hr hl hlt h0 h1 hge' s1.ty (by simpa [numSlots] using harity)
-              rfl rfl rfl rfl ?_
+              rfl rfl hwf' rfl rfl ?_
             have e : st.stack.length - 1 = (st.stack.length - 2) + 1 := by omega
             have e2 : st.stack.length - 1 - 1 = st.stack.length - 2 := by omega
             rw [e2] at t3
@@ -583,7 +589,8 @@ theorem instr_step (ns : NumSem) (hns : NumOK ns) (ctx : Ctx) (f : Nat) (hS : Se
       rw [erunInstr]
       obtain ⟨g1, g2, g3⟩ := gotoCopy_sem hg hr
       have hmem := St.label_mem hlab
-      refine ⟨hlt, lab, doCopy σ cp, hlab, rfl, by rw [g1, hl], g2, rfl, ?_, g3⟩
+      refine ⟨hlt, lab, doCopy σ cp, hlab, rfl, ⟨by rw [g1, hl], g2, rfl, ?_, g3⟩,
+        fun ht => Nat.le_trans ((gotoCopy_declLen hg).2 ht) hwf'.decl⟩
       rw [hr.length]; exact hw.below lab hmem
   | ret =>
     rw [compileInstr] at hc
@@ -601,7 +608,8 @@ theorem instr_step (ns : NumSem) (hns : NumOK ns) (ctx : Ctx) (f : Nat) (hS : Se
       rw [erunInstr]
       obtain ⟨g1, g2, g3⟩ := gotoCopy_sem hg hr
       have hmem := List.mem_of_getElem? hlab
-      refine ⟨hlt, lab, doCopy σ cp, hlab, rfl, by rw [g1, hl], g2, rfl, ?_, g3⟩
+      refine ⟨hlt, lab, doCopy σ cp, hlab, rfl, ⟨by rw [g1, hl], g2, rfl, ?_, g3⟩,
+        fun ht => Nat.le_trans ((gotoCopy_declLen hg).2 ht) hwf'.decl⟩
       rw [hr.length]; exact hw.below lab hmem
   | brIf l =>
     rw [compileInstr] at hc
@@ -644,10 +652,11 @@ theorem instr_step (ns : NumSem) (hns : NumOK ns) (ctx : Ctx) (f : Nat) (hS : Se
               if isTrue (σ.get c) then .jump lab.index (doCopy σ cp) else .normal σ := rfl
           rw [hex]
           split
-          · refine ⟨hlt, lab, doCopy σ cp, hlab', rfl, by rw [g1, hl], g2, htake, ?_, g3⟩
+          · refine ⟨hlt, lab, doCopy σ cp, hlab', rfl, ⟨by rw [g1, hl], g2, htake, ?_, g3⟩,
+              fun ht => Nat.le_trans ((gotoCopy_declLen hg).2 ht) hwf'.decl⟩
             have := hw.height_le_base hmem
             simp [List.length_dropLast]; omega
-          · refine simres_normal_intro rfl (hw.of_same q2 (Nat.le_of_eq q3.symm) (by rw [q1]; simp; omega)) q2 (Nat.le_of_eq q3.symm) hlt
+          · refine simres_normal_intro rfl hwf' q2 (Nat.le_of_eq q3.symm) hlt
               σ rfl (by rw [q1]; exact hr0) hl (SlotsBelow.refl _ _) htake
   | block bt body =>
     rw [compileInstr] at hc
@@ -678,7 +687,7 @@ theorem instr_step (ns : NumSem) (hns : NumOK ns) (ctx : Ctx) (f : Nat) (hS : Se
       · rename_i hcond
         simp only [not_or, Decidable.not_not, ne_eq, Nat.not_lt] at hcond
         have hge : st.base + 1 ≤ st.stack.length := by simp [St.height] at hcond; omega
-        have hw0 : WF (st.drop 1) := hw.of_same rfl (Nat.le_refl _) (by simp; omega)
+        have hw0 : WF (st.drop 1) := hw.of_same rfl (Nat.le_refl _) (by simp; omega) (by have := hw.decl; simp; omega)
         obtain ⟨a1, a2, a3⟩ := hr.top h0
         simp only [Nat.sub_zero] at a2 a3
         have hlast : stk.getLast? = some (σ.get c) := by rw [List.getLast?_eq_getElem?]; exact a3
@@ -710,6 +719,7 @@ theorem instr_step (ns : NumSem) (hns : NumOK ns) (ctx : Ctx) (f : Nat) (hS : Se
             have hbT : sT.base = (st.drop 1).stack.length := by rw [hstatT.base, hbaseIn]
             have hwE0 : WF { sT with stack := sT.stack.take (st.drop 1).height } :=
               hstatT.wf.of_same rfl (Nat.le_refl _) (by simp only [St.height, List.length_take]; rw [hbT]; omega)
+                (by have := hstatT.wf.decl; simp only [List.length_take]; omega)
             have hrE0 : Rel ({ sT with stack := sT.stack.take (st.drop 1).height } : St).stack stk.dropLast σ := by
               show Rel (sT.stack.take (st.drop 1).stack.length) _ _
               rw [hTtake]; exact hr0
@@ -738,7 +748,7 @@ theorem instr_step (ns : NumSem) (hns : NumOK ns) (ctx : Ctx) (f : Nat) (hS : Se
                   have hfinE := block_finish (bt := none) (sIn := { sT with stack := sT.stack.take (st.drop 1).height }) hw0 hr0 hstatT.labels hTnext
                     (by show sT.stack.take (st.drop 1).stack.length = _; exact hTtake) (Static.refl hwE0)
                     (by intro _; show sT.stack.take (st.drop 1).stack.length = (st.drop 1).stack ++ []; rw [hTtake, List.append_nil]) hsimE
-                  refine simres_out_congr hfinE ?_ rfl (Nat.le_refl _)
+                  refine simres_out_congr hfinE ?_ rfl (Nat.le_refl _) (Nat.le_refl _)
                   show List.take (st.drop 1).stack.length sT.stack ++ [] = List.take (st.drop 1).stack.length (List.take (st.drop 1).stack.length sT.stack) ++ []
                   rw [List.take_take, Nat.min_self]
             | some els =>
@@ -764,7 +774,7 @@ theorem instr_step (ns : NumSem) (hns : NumOK ns) (ctx : Ctx) (f : Nat) (hS : Se
                     show List.take (st.drop 1).stack.length (List.take (st.drop 1).stack.length sT.stack) = _
                     rw [List.take_take, Nat.min_self, hTtake]
                   split
-                  · refine simres_out_congr hfinT ?_ (by simp) ?_
+                  · refine simres_out_congr hfinT ?_ (by simp) ?_ (endBlock_declLen_mono _ _ _ _ _ _ _ hstatE.declMono)
                     · simp only [St.endBlock_stack, St.height]; rw [hEtake, hTtake]
                     · simp only [St.endBlock_next]; exact hstatE.next
                   · have hsimE := hS els _ sE outE deadE stk.dropLast loc σ hcE hwE0 hrE0 hl hlt
@@ -798,7 +808,7 @@ theorem instr_step (ns : NumSem) (hns : NumOK ns) (ctx : Ctx) (f : Nat) (hS : Se
           cases l with
           | zero =>
             rw [hres] at hsim
-            obtain ⟨h0, lab, σ', h1, h2, h3⟩ := hsim
+            obtain ⟨h0, lab, σ', h1, h2, h3, h4⟩ := hsim
             rw [hlabs0] at h1
             injection h1 with h1; subst h1
             rw [hbase] at h3
@@ -921,9 +931,14 @@ theorem instr_step (ns : NumSem) (hns : NumOK ns) (ctx : Ctx) (f : Nat) (hS : Se
               intro l' lab sa sb cp hlab hsa hg
               obtain ⟨g1, g2, g3⟩ := gotoCopy_sem hg (hsa ▸ hr0)
               have hmem := St.label_mem hlab
-              refine ⟨hlt, lab, doCopy σ cp, hlab, rfl, by rw [g1, hl], g2, htake, ?_, g3⟩
-              have := hw.height_le_base hmem
-              simp [List.length_dropLast]; omega
+              refine ⟨hlt, lab, doCopy σ cp, hlab, rfl, ⟨by rw [g1, hl], g2, htake, ?_, g3⟩, fun ht => ?_⟩
+              · have := hw.height_le_base hmem
+                simp [List.length_dropLast]; omega
+              · have h1 := (gotoCopy_declLen hg).2 ht
+                rw [(gotoCopy_same hg).1, hsa] at h1
+                have h2 := hwf'.decl
+                rw [(gotoCopy_same hgD).1, f1] at h2
+                exact Nat.le_trans h1 h2
             have hex : execOut ns (f + 1) [MStmtC.switchGoto c cases (cpD, labD.index)] σ =
                 .jump (cases.getD (σ.get c).bits (cpD, labD.index)).2 (doCopy σ (cases.getD (σ.get c).bits (cpD, labD.index)).1) := rfl
             rw [hex]
